@@ -35,7 +35,7 @@ let sim (path : ostring) (out : ostring) : unit =
     List.iter (fun (i, a) -> Printf.fprintf oc " %s:%s" (string_of_coqz i) (string_of_coqz a)) alarms;
     Printf.fprintf oc " |";
     List.iter (fun (i, a) -> Printf.fprintf oc " %s:%s" (string_of_coqz i) (string_of_coqz a)) guards;
-    Printf.fprintf oc " | %s %s\n" (string_of_coqz (check_env tr)) (string_of_coqz (check_envT tr));
+    Printf.fprintf oc " | %s %s %s\n" (string_of_coqz (check_env tr)) (string_of_coqz (check_envT tr)) (string_of_coqz (check_envC tr));
     cur := []; inside := false; hang := false
   in
   iter_lines path (fun _ line ->
